@@ -45,6 +45,15 @@ func (p *Parser) Error(msg string) {
 	p.errHandlerFunc(errors.NewError(msg, p.currentToken.Position))
 }
 
+// reportError delivers a semantic error found by a grammar action; the callback is optional
+func (p *Parser) reportError(e *errors.Error) {
+	if p.errHandlerFunc == nil {
+		return
+	}
+
+	p.errHandlerFunc(e)
+}
+
 // Parse the php7 Parser entrypoint
 func (p *Parser) Parse() int {
 	p.rootNode = nil
